@@ -18,7 +18,7 @@ def run(workdir, goenv, log):
         out["inconclusive"].append("the direct run produced no gate cases")
         return out
     binpath = os.path.join(VERIF, "bin", "escalator")
-    p = subprocess.run(["go", "build", "-o", binpath, "./cmd"], cwd="/repo", env=goenv, stdout=subprocess.PIPE, stderr=subprocess.STDOUT, text=True)
+    p = subprocess.run(["go", "build", "-o", binpath, "./cmd"], cwd=os.environ.get("VERIF_REPO", "/repo"), env=goenv, stdout=subprocess.PIPE, stderr=subprocess.STDOUT, text=True)
     if p.returncode != 0:
         out["inconclusive"].append("cannot build the escalator binary: " + p.stdout[-500:])
         return out
